@@ -237,6 +237,33 @@ def rule_start_typestate(ctx: Ctx, rule: str) -> None:
            'match_dot_dir = False at the outermost group, = dot ∧ ¬nodotdir after a written leading dot', str(vals),
            witness="globmatch('..', '!(.)', EXTGLOB|DOTGLOB|NODOTDIR) must stay False")
 
+    # (d) inside a list a dot is handled while the parser still knows whether it is at the start of a segment: the dot handler is
+    # called before the state is advanced (decision table of one list character, events in order)
+    from .common import cached
+    from ..symeval import focus as _fc, _tag as _vt
+
+    def pe_rows() -> list:
+        ev_ = SymEval(repo, inline=False, loop_mode='once', max_paths=100000)
+        pr_ = [x for x in pe.params() if x != 'self']
+        return ev_.tabulate(pe, {x: Opaque(x) for x in pr_}, Obj((WP, 'WcParse'), {}))
+    rows_ = cached(repo, 'c03:parse_extend_rows', pe_rows)
+    bad_o = []
+    n_o = 0
+    for p_ in rows_:
+        _fc(p_)
+        if not any(k.endswith(" == '.'") and v for k, v in p_.decisions.items()):
+            continue
+        names = [e[1].split('.')[-1] for e in p_.events if e[0] == 'call' and e[1].startswith(f'{WP}:WcParse.')]
+        if '_handle_dot' not in names:
+            continue
+        n_o += 1
+        k_ = names.index('_handle_dot')
+        if any(x in ('reset_dir_track', 'set_after_start', 'set_start_dir', 'update_dir_state') for x in names[:k_]):
+            bad_o.append(f'the segment state is advanced ({[x for x in names[:k_] if x != "_handle_dot"][0]}) before the dot is handled')
+    ctx.ob(rule, f'{WP}:WcParse.parse_extend/dot-handled-in-entry-state', n_o >= 4 and not bad_o, repo.loc(WP, pe.node),
+           'for a `.` inside a list _handle_dot(i, extended) is the first state-dependent call of the iteration', f'{n_o} rows agree' if n_o >= 4 and not bad_o else (bad_o[0] if bad_o else f'{n_o} rows'),
+           witness="glob('@(.*)', flags=EXTGLOB) must not return `.` and `..` (NODOTDIR is the default of glob)")
+
 
 # ------------------------------------------------------------------------------------------------ R4
 def exclusion_compile_sites(ctx: Ctx) -> list[tuple[str, str, ast.Call, Any, str]]:
